@@ -1,4 +1,4 @@
-CONSTANTS M = 4  MaxN = 3  WS = {1, 2, 3, 5}  EmitHeavy = FALSE
+CONSTANTS M = 4  MaxN = 3  WS = {1, 2, 3, 5}  EmitHeavy = TRUE
 SPECIFICATION Spec
 INVARIANT GInv
 CHECK_DEADLOCK FALSE
